@@ -412,6 +412,7 @@ type inst struct {
 	Errs    []string
 	ti      *tmplInfo
 	repo    *Repo // set for peg.peg.go
+	E1Tail  bool  // the rule table was printed by the emitter (E1), not the stand-in
 }
 
 type mapImporter map[string]*types.Package
@@ -599,7 +600,27 @@ func runtimeInstances(c *Check, r *Repo) []*inst {
 				out[i] = &inst{Cfg: cfg, Name: cfg.name(), Errs: []string{"instantiate: " + err.Error()}}
 				return
 			}
-			in := buildInst(r, cfg.name(), head+syntheticTail(cfg))
+			tail := syntheticTail(cfg)
+			e1 := false
+			if t2, ok := emittedTail(r, ti, v); ok {
+				e1 = true
+				// the rule table as the emitter itself prints it for a grammar using these features
+				tail = t2
+				cfg.RuleNames = []string{"S", "A"}
+				if v["HasPush"] {
+					cfg.RuleNames = append(cfg.RuleNames, "PegText")
+				}
+				if v["HasActions"] {
+					cfg.RuleNames = append(cfg.RuleNames, "Action0")
+				}
+				head, lm, err = ti.instantiate(cfg)
+				if err != nil {
+					out[i] = &inst{Cfg: cfg, Name: cfg.name(), Errs: []string{"instantiate: " + err.Error()}}
+					return
+				}
+			}
+			in := buildInst(r, cfg.name(), head+tail)
+			in.E1Tail = e1
 			in.Cfg = cfg
 			in.LineMap = lm
 			in.ti = ti
@@ -614,7 +635,11 @@ func runtimeInstances(c *Check, r *Repo) []*inst {
 			o.Replay = in.Src
 			continue
 		}
-		c.Note("template configurations", in.Name)
+		if in.E1Tail {
+			c.Note("template configurations", in.Name+" + rule table printed by the emitter (E1)")
+		} else {
+			c.Note("template configurations", in.Name+" + stand-in rule table (valuation not producible by the generator)")
+		}
 		good = append(good, in)
 	}
 	// peg.peg.go
@@ -631,4 +656,59 @@ func runtimeInstances(c *Check, r *Repo) []*inst {
 		}
 	}
 	return good
+}
+
+// emittedTail evaluates the emitter (E1) on a small grammar that uses exactly
+// the features of a template valuation and returns the rule-table text it
+// prints, so that the runtime rules see real rule functions instead of the
+// hand-written stand-in. Valuations the generator cannot produce (HasString:
+// string nodes are never constructed) fall back to the stand-in.
+func emittedTail(r *Repo, ti *tmplInfo, v map[string]bool) (string, bool) {
+	if v["HasString"] {
+		return "", false
+	}
+	rg := findRegion(r)
+	if len(rg.problems) > 0 {
+		return "", false
+	}
+	var text string
+	ok := false
+	func() {
+		defer func() { recover() }()
+		it := newInterp(r)
+		m := newModel(it, modelOpts{Ast: v["Ast"]})
+		parts := []*Obj{m.char("a")}
+		if v["HasDot"] {
+			parts = append(parts, m.query(m.dot()))
+		}
+		if v["HasPush"] {
+			parts = append(parts, m.push(m.char("b")))
+		}
+		if v["HasActions"] {
+			code := "_ = 0"
+			if v["HasPush"] {
+				code = "_ = text"
+			}
+			parts = append(parts, m.action(code))
+		}
+		parts = append(parts, m.name("A"))
+		m.addRule("S", m.seq(parts...), 1)
+		m.addRule("A", m.alt(m.seq(m.char("c"), m.star(m.char("d"))), m.peekNot(m.char("e"))), 2)
+		m.finish()
+		em := m.run(rg)
+		if em.Err != "" || em.Tmpl == nil {
+			return
+		}
+		got, err := m.tmplConfigFromTree(em.Tmpl, ti.BoolVars)
+		if err != nil {
+			return
+		}
+		for _, b := range ti.BoolVars {
+			if got.Bools[b] != v[b] {
+				return
+			}
+		}
+		text, ok = em.Text, true
+	}()
+	return text, ok
 }
